@@ -425,6 +425,10 @@ class Canon:
         if g[0] == 'cmp' and g[1] in ('Is', 'IsNot', 'Eq', 'NotEq') and self.is_pair(g[2]) and self.is_pair(g[3]):
             a, b = sorted([self.pairname(g[2]), self.pairname(g[3])])
             return ('same(%s,%s)' if g[1] in ('Is', 'Eq') else 'not same(%s,%s)') % (a, b)
+        if g[0] == 'cmp' and g[1] in ('Eq', 'NotEq', 'Is', 'IsNot') and NONE in (g[2], g[3]):
+            other = g[3] if g[2] == NONE else g[2]
+            if self.is_var(other) or other[0] in ('sum',) or (other[0] == 'call' and other[1] in (S('lpSum'), S('LpAffineExpression'))):
+                return 'false' if g[1] in ('Eq', 'Is') else 'true'          # an LP variable / expression object is never None
         if g[0] == 'cmp' and g[1] in ('Eq', 'NotEq', 'Lt', 'LtE', 'Gt', 'GtE'):
             return pred_text(g[1], psub(self.poly(g[2]), self.poly(g[3])))
         if g[0] == 'bool':
